@@ -36,7 +36,7 @@ ASSUMPTIONS = [
     "reference decision for datagram sequences and the independent acceptability predicate (wire walker) in this file",
     "virtual clock: dns.query.time / dns.asyncquery.time; readiness is scripted through dns.query._wait_for and the socket stand-ins",
 ]
-REQUIRED = ["mon.tcp_deadline", "mon.udp_sync", "mon.udp_async", "mon.returned_is_acceptable", "mon.tcp_reassembly", "mon.tcp_eof_positions", "mon.tcp_write_framing", "mon.tcp_async"]
+REQUIRED = ["mon.udp_with_fallback", "mon.tcp_deadline", "mon.udp_sync", "mon.udp_async", "mon.returned_is_acceptable", "mon.tcp_reassembly", "mon.tcp_eof_positions", "mon.tcp_write_framing", "mon.tcp_async"]
 BUDGET = {"quick": 45.0, "thorough": 480.0}
 
 DEST = ("192.0.2.53", 53)
@@ -65,7 +65,7 @@ def choose_destination(rng):
     REPLY_FROM = responder if MULTICAST else DEST
 
 
-CATS = ["forged_addr", "forged_port", "forged_scope", "genuine_tc_short", "wrong_id", "wrong_question", "extra_question", "empty_question_noerror", "wrong_opcode", "qr_clear", "garbage", "garbage_tc", "genuine_tc", "genuine_trailing", "genuine_malformed_tail",
+CATS = ["forged_addr", "forged_port", "forged_scope", "genuine_tc_short", "wrong_question_class", "wrong_id", "wrong_question", "extra_question", "empty_question_noerror", "wrong_opcode", "qr_clear", "garbage", "garbage_tc", "genuine_tc", "genuine_trailing", "genuine_malformed_tail",
         "servfail_noq", "genuine", "genuine", "block"]
 
 
@@ -101,7 +101,7 @@ def response_wire(q, rng, answers=True, rcode=0, tc=False):
     if answers:
         rr = r.find_rrset(r.answer, q.question[0].name, 1, dns.rdatatype.A, create=True)
         rr.add(dns.rdata.from_text("IN", "A", f"10.{(u >> 16) & 255}.{(u >> 8) & 255}.{u & 255}"), 60)
-        rr.add(dns.rdata.from_text("IN", "A", "10.0.0.2"), 60)
+        rr.add(dns.rdata.from_text("IN", "A", "10.255.0.2"), 60)
     else:
         # keep datagrams distinguishable: a unique additional record
         rr = r.find_rrset(r.additional, dns.name.from_text(f"u{u}.invalid."), 1, dns.rdatatype.A, create=True)
@@ -132,6 +132,14 @@ def datagram(cat, q, rng):
         w = bytearray(response_wire(q, rng))
         w[0:2] = struct.pack("!H", (q.id + rng.randint(1, 65535)) % 65536)
         return bytes(w), REPLY_FROM
+    if cat == "wrong_question_class":
+        # same name and type, another class (CH/HS/ANY): a different question
+        q2 = dns.message.make_query(q.question[0].name, q.question[0].rdtype, rng.choice((3, 4, 255)), id=q.id)
+        r2 = dns.message.make_response(q2)
+        _uniq[0] += 1
+        rr = r2.find_rrset(r2.additional, dns.name.from_text(f"u{_uniq[0]}.invalid."), 1, dns.rdatatype.A, create=True)
+        rr.add(dns.rdata.from_text("IN", "A", "10.9.9.9"), 1)
+        return r2.to_wire(), REPLY_FROM
     if cat == "wrong_question":
         q2 = dns.message.make_query("other.example.", "A", id=q.id)
         return response_wire(q2, rng), REPLY_FROM
@@ -478,7 +486,7 @@ def check_udp(ctx, rng, is_async, cats=None, opts=None):
         if (frm != DEST) if not MULTICAST else (frm[1:] != DEST[1:]):
             ctx.violation(f"returned-message-from-unexpected-source:{mode}:{cats[idx]}{':multicast' if MULTICAST else ''}", f"{frm}", case)
             return
-        if cats[idx] in ("garbage", "garbage_tc", "genuine_tc_short", "genuine_malformed_tail", "wrong_id", "wrong_question", "extra_question", "empty_question_noerror", "wrong_opcode", "qr_clear") or (cats[idx] == "genuine_trailing" and not opts["ignore_trailing"]):
+        if cats[idx] in ("garbage", "garbage_tc", "genuine_tc_short", "genuine_malformed_tail", "wrong_id", "wrong_question", "wrong_question_class", "extra_question", "empty_question_noerror", "wrong_opcode", "qr_clear") or (cats[idx] == "genuine_trailing" and not opts["ignore_trailing"]):
             ctx.violation(f"malformed-or-mismatched-datagram-returned:{mode}:{cats[idx]}:{'ignore_errors' if opts['ignore_errors'] else 'strict'}", f"cats {cats} opts {opts}; message errors {getattr(r, 'errors', None)}", case)
             return
         if cats[idx] == "genuine_tc" and opts["raise_on_truncation"]:
@@ -638,7 +646,8 @@ def check_tcp_deadline(ctx, rng, is_async):
     mode = "async" if is_async else "sync"
     case = {"kind": "tcp-deadline", "mode": mode, "parts": parts, "delays": delays}
     allowed = []  # (now, latest moment the read was allowed to run to)
-    fake = FakeStream(single, list(parts), set(range(len(parts) + 4)))  # every recv would-block first, so a wait precedes it
+    # every recv would-block first, so a wait precedes it; the query may also leave in pieces with would-blocks in between
+    fake = FakeStream(single, list(parts), set(range(len(parts) + 4)), send_plan=rng.choice(([], [0, 1000], [3, 0, 0, 1000], [0, 1, 0, 1000])))
     pending = list(delays)
 
     def timed_wait_for(fd, readable, writable, _, expiration):
@@ -688,8 +697,59 @@ def check_tcp_deadline(ctx, rng, is_async):
         ctx.violation(f"tcp-deadline-outcome:{mode}:{got}-expected-{want}", f"delays {delays} (sum {sum(delays):.2f}) clock at end {clock.now - (deadline - 5):.2f}", case)
 
 
+def check_fallback(ctx, rng, is_async):
+    """udp_with_fallback: a genuine TC reply over UDP, then the same exchange over TCP -- with the caller's options (one RR per
+    RRset, ignore trailing octets) applied to BOTH legs"""
+    ctx.count("evaluations")
+    ctx.count("mon.udp_with_fallback")
+    choose_destination(rng)
+    q = make_query(rng)
+    one, trailing = rng.random() < 0.5, rng.random() < 0.5
+    junk = rng.random() < 0.5
+    tcw, _ = datagram("genuine_tc", q, rng)
+    full = response_wire(q, rng)  # two A records in one RRset
+    frame = full + (b"\x00junk" if junk else b"")
+    stream = struct.pack("!H", len(frame)) + frame
+    n = rng.randint(1, 6)
+    cuts = sorted(rng.sample(range(1, len(stream)), min(n, len(stream) - 1)))
+    parts = [b - a for a, b in zip([0] + cuts, cuts + [len(stream)])]
+    ufake = FakeUDPSocket([("dgram", tcw, REPLY_FROM)])
+    tfake = FakeStream(stream, parts, set())
+    clock = Clock()
+    mode = "async" if is_async else "sync"
+    case = {"kind": "fallback", "mode": mode, "one_rr_per_rrset": one, "ignore_trailing": trailing, "trailing_octets_in_frame": junk, "where": WHERE}
+    try:
+        with swap_attr(dns.query, "time", clock), swap_attr(dns.query, "_wait_for", scripted_wait_for), swap_attr(dns.asyncquery, "time", clock):
+            if is_async:
+                r, used_tcp = run_async(dns.asyncquery.udp_with_fallback(q, WHERE, timeout=5, port=DEST[1], one_rr_per_rrset=one, ignore_trailing=trailing,
+                                                                         udp_sock=AsyncUDP(ufake), tcp_sock=AsyncStream(tfake)))
+            else:
+                r, used_tcp = dns.query.udp_with_fallback(q, WHERE, timeout=5, port=DEST[1], one_rr_per_rrset=one, ignore_trailing=trailing, udp_sock=ufake, tcp_sock=tfake)
+        got = "return"
+    except dns.message.TrailingJunk:
+        got = "TrailingJunk"
+    except Exception as e:
+        ctx.violation(f"udp_with_fallback-raised:{mode}:" + core.exc_sig(e), repr(e), case)
+        return
+    want = "TrailingJunk" if junk and not trailing else "return"
+    ctx.seen(("fallback", mode, one, trailing, junk, got))
+    if got != want:
+        ctx.violation(f"udp_with_fallback-tcp-leg-ignores-caller-options:{mode}:{got}-expected-{want}", f"one_rr_per_rrset={one} ignore_trailing={trailing} trailing octets in frame={junk}", case)
+        return
+    if got == "return":
+        if not used_tcp:
+            ctx.violation(f"udp_with_fallback-did-not-fall-back:{mode}", "", case)
+            return
+        n_sets = len(r.answer)
+        n_records = sum(len(x) for x in dns.message.from_wire(full).answer)
+        if n_sets != (n_records if one else 1):
+            ctx.violation(f"udp_with_fallback-tcp-leg-ignores-caller-options:{mode}:one_rr_per_rrset", f"asked {one}: {n_sets} answer RRsets for two records of one RRset", case)
+
+
 def run(spec, ctx):
     rng = ctx.rng
+    for i in range(200):
+        check_fallback(ctx, rng, is_async=(i % 2 == 1))
     # exhaustive over option combinations x single-category preludes before the genuine reply
     combos = [(a, b, c, d) for a in (False, True) for b in (False, True) for c in (False, True) for d in (False, True)]
     k = 0
